@@ -168,8 +168,11 @@ def oracle(c):
 # (keyword over a contrary configuration, re-configuration of an object that was parsed before, PLSSDesc hand-down)
 
 ROUTES = ["tract_kw", "tract_kw_over_config", "tract_reconfigured", "tract_attributes", "plss_config", "plss_kw_over_config", "plss_config_assigned",
-          "parse_tracts_kw", "parse_tracts_config", "tract_reparsed_same_object"]
-SPELL = ["glyph", "slash", "fracfree", "words"]
+          "parse_tracts_kw", "parse_tracts_config", "tract_reparsed_same_object",
+          # an unrelated setting assigned afterwards leaves the depth settings in force; the list a dry run returns obeys the keywords of that call
+          "tract_unrelated_config_afterwards", "parse_tracts_unrelated_config", "tract_dry_run_return", "unparsed_tract_dry_run_return"]
+SPELL = ["glyph", "slash", "fracfree", "words", "wrapped"]
+UNRELATED = ["suppress_lot_divs", "clean_qq", "n,w", "suppress_lot_divs.False", "ocr_scrub"]
 
 
 def other_values(cfg, k):
@@ -213,6 +216,15 @@ def spell_chain(chain, how):
         if k >= 1 and all(x in aq.QUARTERS for x in chain[k:]):
             return aq.frac_free(chain)
         return aq.canonical_text(chain)
+    if how == "wrapped":
+        # a chain that runs over line breaks (Unix and Windows line ends)
+        seps = ["\n", "\r\n", " of the\r\n", " of\n", "\r\n  "]
+        out = ""
+        for i, comp in enumerate(chain):
+            out += comp + ("/2" if comp in aq.HALVES else "/4")
+            if i < len(chain) - 1:
+                out += seps[(i + len(chain)) % len(seps)]
+        return out
     if how == "words":
         names = {"N": "North Half", "S": "South Half", "E": "East Half", "W": "West Half", "NE": "Northeast Quarter", "NW": "Northwest Quarter",
                  "SE": "Southeast Quarter", "SW": "Southwest Quarter"}
@@ -258,6 +270,18 @@ def oracle_routes(c):
         t = Tract(text, parse_qq=True, config=explicit_text(prior))
         t.parse(**kwargs_of(prior))
         t.parse(**kw)
+    elif route == "tract_unrelated_config_afterwards":
+        t = Tract(text, parse_qq=True, config=explicit_text(cfg))
+        t.config = UNRELATED[c["k"] % len(UNRELATED)]
+        t.parse()
+    elif route == "parse_tracts_unrelated_config":
+        d = PLSSDesc(full, config="parse_qq," + explicit_text(cfg))
+        d.parse_tracts(config=UNRELATED[c["k"] % len(UNRELATED)])
+        t = d.tracts[0]
+    elif route in ("tract_dry_run_return", "unparsed_tract_dry_run_return"):
+        t = Tract(text, parse_qq=(route == "tract_dry_run_return"), config=explicit_text(prior))
+        returned = t.parse(commit=False, **kw)
+        return check_pieces(list(returned), None, chain, cfg, text, route)
     elif route == "plss_config":
         d = PLSSDesc(full, config="parse_qq," + explicit_text(cfg))
         t = d.tracts[0]
